@@ -207,13 +207,16 @@ Proof.
   rewrite TY4. unfold mt_sequence_reset in NT. rewrite NT. reflexivity.
 Qed.
 
-Lemma plan_gap_seq : forall st n b e a k, 0 < b -> In (PGap a k) (fst (plan st n b e)) -> a = n \/ a <> 0.
+Lemma plan_gap_seq : forall st n b e a k, store_wf st = true -> 0 < b -> In (PGap a k) (fst (plan st n b e)) -> a <> 0.
 Proof.
-  intros st n b e a k B0 I. unfold plan in I.
-  pose proof (loop_gaps (after (b - 1) (finish_of st e) st) n b 0 a k) as LG.
-  destruct (plan_loop n b 0 (after (b - 1) (finish_of st e) st)) as [items last]. cbn [fst] in LG.
+  intros st n b e a k WF B0 I. unfold plan in I.
+  set (recs := after (b - 1) (finish_of st e) st) in *.
+  assert (SR : sorted_from (b - 1) recs = true).
+  { pose proof (after_sorted st 0 (b - 1) (finish_of st e) WF) as S. replace (N.max 0 (b - 1)) with (b - 1) in S by lia. exact S. }
+  pose proof (loop_gaps_exact recs b 0 a k B0 SR) as LG.
+  destruct (plan_loop b 0 recs) as [items last]. cbn [fst] in LG.
   unfold plan_final in I. destruct (last =? 0); cbn [fst] in I; apply in_app_or in I; destruct I as [I|[I|[]]];
-    try (left; apply LG; exact I); inversion I; subst; right; lia.
+    try (destruct (LG I) as (A1 & _); unfold from_of in A1; cbn in A1; lia); inversion I; subst; lia.
 Qed.
 
 (* the end-to-end statement: the model's answer passes the oracle *)
@@ -227,13 +230,12 @@ Theorem answer_ok_partial : forall s seqnum m,
   forallb (exact_ok sc decode) (p_store (s_per s)) = true ->
   keys_below (s_next_send s) (p_store (s_per s)) = true ->
   range_bad (req_begin m) (req_end m) = false ->
-  no_gap_before_stored (p_store (s_per s)) (req_begin m) (req_end m) = true ->
   nothing_stored_beyond (p_store (s_per s)) (s_next_send s) (req_end m) = true ->
   exists s' evs,
     handle_resend_request sc decode now seqnum m s = (inl true, s', evs) /\
     answer_ok (p_store (s_per s)) seqnum (s_next_send s) (req_begin m) (req_end m) (outs evs) (s_next_send s') = true.
 Proof.
-  intros s seqnum m N1 N2 (r & ENF) ST CL BA ASA ATT WF LEN RO EX KB RB NG NB.
+  intros s seqnum m N1 N2 (r & ENF) ST CL BA ASA ATT WF LEN RO EX KB RB NB.
   destruct (sok_parts sc SOK) as (W & S34 & S43 & S52 & S122 & S49 & S56 & ADM & B36 & B123).
   assert (DEC : forallb (resendable decode) (p_store (s_per s)) = true).
   { revert RO. apply forallb_impl. intros [k raw] H. unfold record_ok in H. unfold resendable. cbn [fst snd] in *.
@@ -257,16 +259,15 @@ Proof.
   { intros k raw I. assert (J : In (k, raw) (resent items)).
     { unfold resent. apply in_flat_map. exists (PMsg k raw). split; [exact I|left; reflexivity]. }
     unfold items in J. rewrite resent_plan in J. apply after_in in J. tauto. }
-  assert (GS : forall a k, In (PGap a k) items -> a = s_next_send s \/ a <> 0).
+  assert (GS : forall a k, In (PGap a k) items -> a <> 0).
   { intros a k I. eapply plan_gap_seq; eauto. }
   clearbody items. unfold out, outs.
   induction items as [|it items IH]; [constructor|].
   cbn [map flat_map app]. constructor.
   - destruct it as [a k|k raw]; cbn [abs1].
     + rewrite (wire_gap_parse sc decode now SOK s) by assumption. unfold gap_seq.
-      destruct (GS a k ltac:(left; reflexivity)) as [G|G].
-      * subst a. destruct (s_next_send s =? 0) eqn:Z; [apply N.eqb_eq in Z; rewrite Z|]; reflexivity.
-      * replace (a =? 0) with false by (symmetry; apply N.eqb_neq; exact G). reflexivity.
+      pose proof (GS a k ltac:(left; reflexivity)) as G.
+      replace (a =? 0) with false by (symmetry; apply N.eqb_neq; exact G). reflexivity.
     + assert (I : In (k, raw) (p_store (s_per s))) by (apply SUB; left; reflexivity).
       rewrite forallb_forall in RO, EX.
       exists (tokens (wire sc decode now s (PMsg k raw))). split.
